@@ -22,16 +22,18 @@ from fractions import Fraction
 from ..common import Rng, cz, cb
 
 MANIFEST = {
-    'text': 'Coq proof that the block->nested-let translation to FPCore is sound for every program, environment and '
-            'fuel when the `!` annotation wraps only the bindings of the `with` body (to_fpcore_sound), that the '
-            'translation as coded is sound exactly on programs where no statement follows a `with` in its block '
-            '(…_partial) and is refuted otherwise (…_refuted, the known defect); that reading an FPCore back '
-            '(expression/let/if/! subset) preserves evaluation; that FPCoreContext.to_context inverts from_context '
-            'on the expressible contexts (refuted as coded for fixed-point contexts: scale/nbits swapped). Tied to '
-            '/repo by structural comparison of the real compiler/frontend output with the model inside Coq and by '
-            'three-way differential execution (interpreter, titanfp on the core, re-read function).',
-    'technique': 'machine-checked proof in Coq (abstract arithmetic indexed by the active context) + '
-                 'model/implementation correspondence by vm_compute + differential execution against titanfp',
+    'text': 'Coq proofs over abstract arithmetic indexed by the active context: (1) the block->nested-let translation to '
+            'FPCore is sound for every program, environment, fuel and argument vector when the `!` annotation wraps only '
+            'what the `with` body binds (to_fpcore_sound); the translation as coded is sound exactly when only variable '
+            'copies follow a `with` in its block (…_partial) and refuted otherwise (…_refuted: known defect); (2) reading '
+            'an FPCore back (expression/let/let*/if/! subset) preserves evaluation for a name generator that never reuses '
+            'a name (from_fpcore_sound; refuted for Gensym as coded), hence compile-then-read preserves behaviour '
+            '(roundtrip_sound); (3) FPCoreContext.to_context inverts from_context on the expressible contexts (refuted as '
+            'coded for fixed-point contexts). Tied to /repo on every run by structural comparison, inside Coq, of the real '
+            'compiler / frontend / FPCoreContext output with the models, and by three-way differential execution '
+            '(interpreter, titanfp on the core, re-read function).',
+    'technique': 'machine-checked proof in Coq + model/implementation correspondence by vm_compute + differential '
+                 'execution against the titanfp reference evaluator',
 }
 
 HEADER = ('From Coq Require Import ZArith List String Bool.\n'
@@ -717,6 +719,49 @@ def gensym_reused_a_name(core):
     return len(set(names)) < len(names)
 
 
+def replay_one(ck):
+    """--replay FILE: re-run the stored program (or core) on the stored arguments, three ways."""
+    import json
+    import fpy2 as fp
+    from fpy2 import FPCoreCompiler, Function
+    from titanfp.arithmetic.mpmf import MPMF, Interpreter
+    from titanfp.fpbench import fpcparser
+    rep = json.loads(open(ck.replay).read()).get('replay', {})
+
+    def to_mpmf(x):
+        f = fp.Float.from_float(x)
+        return MPMF(negative=f.s, exp=f.exp, c=f.c, isinf=f.isinf, isnan=f.isnan)
+    args = [float.fromhex(a) for a in rep.get('args', [])]
+    if 'source' in rep and args:
+        import re
+        name = re.search(r'def (\w+)\(', rep['source']).group(1)
+        path = ck.dir / f'c12_replay_{name}.py'
+        path.write_text(rep['source'])
+        f = getattr(load_module(f'c12_replay_{name}', path), name)
+        core = FPCoreCompiler(unsafe_int_cast=True).compile(f)
+        want = guarded(lambda: f(*args))
+        got_core = guarded(lambda: Interpreter().interpret(core, [to_mpmf(a) for a in args]))
+        got_re = guarded(lambda: Function.from_fpcore(fpcparser.compile(core.sexp)[0])(*args))
+        ck.log(f'core: {core.sexp}')
+        ck.log(f'interpreter={want} titanfp={got_core} re-read={got_re}')
+        ck.evaluations += 1
+        if not (want == got_core == got_re):
+            ck.violation('replayed program: interpreter, titanfp on the core and the re-read function disagree',
+                         dict(rep, interpreter=want, titanfp=got_core, reread=got_re),
+                         key=KEY_WITH if rep.get('stmt_after_with') and got_core == got_re else None)
+    elif 'core' in rep and args:
+        core = fpcparser.compile(rep['core'])[0]
+        a = guarded(lambda: Function.from_fpcore(core)(*args))
+        b = guarded(lambda: Interpreter().interpret(core, [to_mpmf(v) for v in args]))
+        ck.log(f're-read={a} titanfp={b}')
+        ck.evaluations += 1
+        if a != b:
+            ck.violation('replayed core: the function read from it and titanfp disagree', dict(rep, reread=a, titanfp=b),
+                         key=KEY_GENSYM if gensym_reused_a_name(core) else None)
+    else:
+        ck.log('nothing to replay in this file (structural / context cases are re-checked by a normal run)')
+
+
 def run(ck):
     import fpy2 as fp
     from fpy2 import FPCoreCompiler, Function, FPCoreContext, NoSuchContextError
@@ -732,7 +777,8 @@ def run(ck):
         'Coq 8.16.1 kernel (coqc); vm_compute evaluates the model on the correspondence cases and the refutation witnesses',
         'hand-written Gallina models coq/Backend/{FPCore,ToFPCore,FromFPCore}.v of backend/fpc.py (_visit_block, '
         '_visit_context, _visit_if/_if1/_while/_for, single changed variable), frontend/fpc.py (expression/let/if/! '
-        'subset) and fpc_context.py, tied to /repo by the structural comparison below',
+        'subset, Gensym naming) and fpc_context.py, tied to /repo by the structural comparison below',
+        'functional extensionality (environments are functions; used for the loop cases of to_fpcore_sound)',
         'exporters in harness/props/c12.py (fpy2 AST -> Coq func on the post-pass AST, titanfp AST -> Coq cprog, '
         'normalisation of the range-tensor detour of `for` to the model\'s CFor)',
         'titanfp (reference FPCore evaluator) — only inside the behavioural comparison',
@@ -754,6 +800,10 @@ def run(ck):
 
     rng = Rng(ck.seed, 'c12')
     cases = []      # (kind, term, info)
+
+    if ck.replay:
+        replay_one(ck)
+        return
 
     # ------------------------------------------------------------------ contexts: exhaustive small domain
     rms = list(RM)
@@ -836,8 +886,8 @@ def run(ck):
     # ------------------------------------------------------------------ programs
     progdir = ck.dir / 'progs'
     progdir.mkdir(parents=True, exist_ok=True)
-    n_single = 900 if thorough else 150
-    n_multi = 300 if thorough else 50
+    n_single = 900 if thorough else 110
+    n_multi = 300 if thorough else 40
     sources = list(FIXED_PROGRAMS)
     g1 = ProgGen(rng, multi=False)
     for i in range(n_single):
